@@ -7,6 +7,9 @@ import VivModel.Props.C03
 import VivModel.Props.C04
 import VivModel.Props.C05
 import VivModel.Lemmas.IndexMap
+import VivModel.Props.C14
+import VivModel.Props.C15
+import VivModel.Props.C16
 /-! WHOLE — theorems about the COMPOSED end-to-end model (`Model/Whole.lean`).
 
 All statements are for every configuration, every state and – unless the statement is about numpy's block –
@@ -1462,6 +1465,937 @@ theorem birthsAt_step (cfg : Config) (hstep : 0 < cfg.step) (k ph : Nat) :
   simp only [Int.natCast_nonneg, ↓reduceIte, Int.toNat_natCast]
   cases cfg.births[k]? <;> simp
 
+/-! ### the value pipeline of the mortality probability -/
+
+/-- the cells the table holds for a simulant with the attributes `q`, looked up ON ITS OWN -/
+def ownCells (t : Lookup.Table) (q : Lookup.Req) : Lookup.Cells :=
+  if t.np = 0 then ((Lookup.groupRows t.rows q.keys).head?).map (·.vals)
+  else Lookup.interpOne (Lookup.groupRows t.rows q.keys) t.np q.xs
+
+/-- the source value of simulant `l`: the value cell of its own attributes over the table's denominator -/
+def srcValue (p : PipeSpec) (t : Lookup.Table) (rows : List Row) (l : Nat) : Rat :=
+  ((((ownCells t (reqOf p rows l)).getD []).getD 0 0 : Int) : Rat) / (p.den : Nat)
+
+/-- the modifiers in REGISTRATION order: the components `WMod k` in the order of their setup -/
+def regMods (cfg : Config) (p : PipeSpec) : List ModSpec :=
+  (cfg.order.filter fun c => decide (4 ≤ c ∧ c < 7)).map fun c => modSpecOf p (c - 4)
+
+/-- post(modifiers in registration order(source(own row))) for simulant `l` -/
+def ownValue (cfg : Config) (p : PipeSpec) (t : Lookup.Table) (rows : List Row) (l : Nat) : Rat :=
+  if p.union then Pipeline.union (srcValue p t rows l :: (regMods cfg p).map fun m => modW m rows l)
+  else (regMods cfg p).foldl (fun x m => modOne m (modW m rows l) x) (srcValue p t rows l)
+
+theorem reqOf_label (p : PipeSpec) (rows : List Row) (l : Nat) : (reqOf p rows l).label = l := by
+  unfold reqOf; split <;> rfl
+
+theorem req_consistent (p : PipeSpec) (rows : List Row) (idx : List Nat) :
+    Viv.Props.C15.Consistent (idx.map (reqOf p rows)) := by
+  intro r hr r' hr' hl
+  obtain ⟨l, _, rfl⟩ := List.mem_map.mp hr
+  obtain ⟨l', _, rfl⟩ := List.mem_map.mp hr'
+  rw [reqOf_label, reqOf_label] at hl
+  rw [hl]
+
+/-- C15 at the level of the simulation: an accepted call of the table returns, for every requested simulant, the cells
+of its own attributes – whoever else is requested -/
+theorem table_call_pointwise (p : PipeSpec) (t : Lookup.Table) (rows : List Row) (idx : List Nat)
+    (res : List (Nat × Lookup.Cells)) (hy : t.yearAt = none) (h : t.call 0 0 (idx.map (reqOf p rows)) = .ok res) :
+    res = idx.map fun l => (l, ownCells t (reqOf p rows l)) := by
+  unfold Lookup.Table.call at h
+  have hc := req_consistent p rows idx
+  by_cases hnp : t.np = 0
+  · rw [if_pos hnp] at h
+    rw [Viv.Props.C15.categorical_eq] at h
+    cases hf : (Viv.Props.C15.reqKeys (idx.map (reqOf p rows))).findSome? t.catCheck with
+    | some e => rw [hf] at h; cases h
+    | none =>
+      rw [hf] at h
+      have hfill := Viv.Props.C15.fill_all (fun k _ => ((Lookup.groupRows t.rows k).head?).map (·.vals)) _ hc
+      cases h
+      show (Viv.Props.C15.reqKeys (idx.map (reqOf p rows))).foldl (t.catFill _) _ = _
+      have : (t.catFill (idx.map (reqOf p rows))) =
+          Viv.Props.C15.fillWith (fun k _ => ((Lookup.groupRows t.rows k).head?).map (·.vals)) (idx.map (reqOf p rows)) := rfl
+      rw [this, hfill, List.map_map]
+      apply List.map_congr_left
+      intro l _
+      simp [ownCells, hnp, reqOf_label]
+  · rw [if_neg hnp] at h
+    have hid : (idx.map (reqOf p rows)).map (Lookup.setYear t.yearAt (Lookup.yearParam 0 0)) = idx.map (reqOf p rows) := by
+      rw [hy]; simp [Lookup.setYear]
+    rw [hid] at h
+    rw [Viv.Props.C15.lookup_pointwise t _ res hc h, List.map_map]
+    apply List.map_congr_left
+    intro l _
+    simp [ownCells, hnp, reqOf_label]
+
+
+theorem build_yearAt (nk np : Nat) (rows : List Lookup.Row) (ex : Bool) (ya : Option Nat) (t : Lookup.Table)
+    (h : Lookup.build nk np rows ex ya = .ok t) : t.yearAt = ya ∧ t.np = np ∧ t.rows = rows ∧ t.extrapolate = ex := by
+  unfold Lookup.build at h
+  simp only [bind, Except.bind, pure, Except.pure] at h
+  repeat' (split at h)
+  all_goals first | (cases h; exact ⟨rfl, rfl, rfl, rfl⟩) | cases h
+
+theorem mkTable_yearAt (p : PipeSpec) (t : Lookup.Table) (h : mkTable p = .ok t) : t.yearAt = none :=
+  (build_yearAt _ _ _ _ _ t h).1
+
+/-- `LookupTable.__call__` as the pipeline's source sees it: a Series over the requested index, in request order,
+whose entry for simulant `l` is the value of `l`'s own row -/
+theorem lookupSeries_pointwise (p : PipeSpec) (t : Lookup.Table) (rows : List Row) (idx : List Nat)
+    (ser : Pipeline.Series) (hy : t.yearAt = none) (h : lookupSeries p t rows idx = .ok ser) :
+    ser = idx.map fun l => (l, srcValue p t rows l) := by
+  unfold lookupSeries at h
+  split at h
+  · cases h
+  · rename_i res hres
+    have hp := table_call_pointwise p t rows idx res hy hres
+    split at h
+    · cases h
+      subst hp
+      rw [List.map_map]
+      rfl
+    · cases h
+
+
+/-- the modifiers of the pipeline are those of the `WMod` components, in the order of the components' setup (C14
+`modsFor`: call order, whichever component made the call) -/
+theorem modsFor_replaceOps (cfg : Config) (p : PipeSpec) (t : Lookup.Table) (rows : List Row) :
+    Viv.Props.C14.modsFor PIPE (replaceOps cfg p t rows) = (regMods cfg p).map fun m => modFn m rows := by
+  unfold replaceOps regMods
+  induction cfg.order with
+  | nil => rfl
+  | cons c cs ih =>
+    rw [List.flatMap_cons, Viv.Props.C14.modsFor_append, ih]
+    by_cases h1 : c = 1
+    · subst h1; simp [Viv.Props.C14.modsFor]
+    · by_cases h4 : 4 ≤ c ∧ c < 7
+      · simp [h1, h4, Viv.Props.C14.modsFor]
+      · simp [h1, h4, Viv.Props.C14.modsFor]
+
+theorem prodsFor_replaceOps (cfg : Config) (p : PipeSpec) (t : Lookup.Table) (rows : List Row) :
+    Viv.Props.C14.prodsFor PIPE (replaceOps cfg p t rows) =
+      (cfg.order.filter fun c => decide (c = 1)).map fun _ =>
+        ({ source := srcItem p t rows, combiner := Pipeline.replaceCombiner, post := none } :
+          Pipeline.Config Id (List Nat) Pipeline.Item (List Nat → Pipeline.Item → Id Pipeline.Item)) := by
+  unfold replaceOps
+  induction cfg.order with
+  | nil => rfl
+  | cons c cs ih =>
+    rw [List.flatMap_cons, Viv.Props.C14.prodsFor_append, ih]
+    by_cases h1 : c = 1
+    · subst h1; simp [Viv.Props.C14.prodsFor]
+    · by_cases h4 : 4 ≤ c ∧ c < 7
+      · simp [h1, h4, Viv.Props.C14.prodsFor]
+      · simp [h1, h4, Viv.Props.C14.prodsFor]
+
+/-- the modifiers applied in order to a Series act simulant by simulant -/
+theorem foldl_modFn (ms : List ModSpec) (rows : List Row) (idx : List Nat) (ser : Pipeline.Series) :
+    (ms.map fun m => modFn m rows).foldl (fun (v : Pipeline.Item) f => f idx v) (.se ser) =
+      .se (ser.map fun e => (e.1, ms.foldl (fun x m => modOne m (modW m rows e.1) x) e.2)) := by
+  induction ms generalizing ser with
+  | nil => simp
+  | cons m ms ih =>
+    rw [List.map_cons, List.foldl_cons]
+    have : modFn m rows idx (.se ser) = .se (ser.map fun e => (e.1, modOne m (modW m rows e.1) e.2)) := rfl
+    rw [this, ih, List.map_map]
+    rfl
+
+
+theorem srcItem_ok (p : PipeSpec) (t : Lookup.Table) (rows : List Row) (idx : List Nat) (ser : Pipeline.Series)
+    (h : lookupSeries p t rows idx = .ok ser) : srcItem p t rows idx = .se ser := by
+  unfold srcItem; rw [h]
+
+/-- **the value of the pipeline under the replace combiner** (C14 `built_pipeline` + `call_replace`, C15
+`lookup_pointwise`): for every simulant of the request, the modifiers of the `WMod` components applied in the order
+of their registration to the value of the simulant's own table row -/
+theorem mortValue_replace (cfg : Config) (p : PipeSpec) (t : Lookup.Table) (rows : List Row) (idx : List Nat)
+    (ser : Pipeline.Series) (hy : t.yearAt = none) (hu : p.union = false)
+    (h : mortValue cfg p t rows idx = .ok ser) :
+    ser = idx.map fun l => (l, (regMods cfg p).foldl (fun x m => modOne m (modW m rows l) x) (srcValue p t rows l)) := by
+  unfold mortValue at h
+  split at h
+  · cases h
+  · rename_i src hsrc
+    rw [hu] at h
+    simp only [Bool.false_eq_true, if_false] at h
+    rw [Viv.Props.C14.built_pipeline, modsFor_replaceOps, prodsFor_replaceOps] at h
+    cases hf : cfg.order.filter (fun c => decide (c = 1)) with
+    | nil =>
+      rw [hf] at h
+      simp [Pipeline.Pipeline.call] at h
+    | cons c cs =>
+      rw [hf] at h
+      simp only [List.map_cons, List.head?_cons] at h
+      have hcall := Viv.Props.C14.call_replace (srcItem p t rows) ((regMods cfg p).map fun m => modFn m rows) none idx false
+      unfold Viv.Props.C14.pureReplace at hcall
+      rw [hcall] at h
+      rw [srcItem_ok p t rows idx src hsrc] at h
+      erw [foldl_modFn] at h
+      simp only [Viv.Props.C14.postValue, pure] at h
+      cases h
+      rw [lookupSeries_pointwise p t rows idx src hy hsrc, List.map_map]
+      rfl
+
+
+theorem modsFor_unionOps (cfg : Config) (p : PipeSpec) (t : Lookup.Table) (rows : List Row) :
+    Viv.Props.C14.modsFor PIPE (unionOps cfg p t rows) = (regMods cfg p).map fun m => contribFn m rows := by
+  unfold unionOps regMods
+  induction cfg.order with
+  | nil => rfl
+  | cons c cs ih =>
+    rw [List.flatMap_cons, Viv.Props.C14.modsFor_append, ih]
+    by_cases h1 : c = 1
+    · subst h1; simp [Viv.Props.C14.modsFor]
+    · by_cases h4 : 4 ≤ c ∧ c < 7
+      · simp [h1, h4, Viv.Props.C14.modsFor]
+      · simp [h1, h4, Viv.Props.C14.modsFor]
+
+theorem prodsFor_unionOps (cfg : Config) (p : PipeSpec) (t : Lookup.Table) (rows : List Row) :
+    Viv.Props.C14.prodsFor PIPE (unionOps cfg p t rows) =
+      (cfg.order.filter fun c => decide (c = 1)).map fun _ =>
+        ({ source := fun idx => [srcItem p t rows idx], combiner := Pipeline.listCombiner, post := some unionPost } :
+          Pipeline.Config Id (List Nat) (List Pipeline.Item) (List Nat → Id Pipeline.Item)) := by
+  unfold unionOps
+  induction cfg.order with
+  | nil => rfl
+  | cons c cs ih =>
+    rw [List.flatMap_cons, Viv.Props.C14.prodsFor_append, ih]
+    by_cases h1 : c = 1
+    · subst h1; simp [Viv.Props.C14.prodsFor]
+    · by_cases h4 : 4 ≤ c ∧ c < 7
+      · simp [h1, h4, Viv.Props.C14.prodsFor]
+      · simp [h1, h4, Viv.Props.C14.prodsFor]
+
+/-- **the value of the pipeline under the list combiner with `union_post_processor`** (C14 `built_pipeline`,
+`foldlM_id_list`, `union_series`; C15 `lookup_pointwise`): for every simulant of the request the union
+`1 − Π(1 − pₖ)` of the value of its own table row and the contributions of the `WMod` components -/
+theorem mortValue_union (cfg : Config) (p : PipeSpec) (t : Lookup.Table) (rows : List Row) (idx : List Nat)
+    (ser : Pipeline.Series) (hy : t.yearAt = none) (hu : p.union = true)
+    (h : mortValue cfg p t rows idx = .ok ser) :
+    ser = idx.map fun l => (l, Pipeline.union (srcValue p t rows l :: (regMods cfg p).map fun m => modW m rows l)) := by
+  unfold mortValue at h
+  split at h
+  · cases h
+  · rename_i src hsrc
+    rw [hu] at h
+    simp only [if_true] at h
+    rw [Viv.Props.C14.built_pipeline, modsFor_unionOps, prodsFor_unionOps] at h
+    cases hf : cfg.order.filter (fun c => decide (c = 1)) with
+    | nil =>
+      rw [hf] at h
+      simp [Pipeline.Pipeline.call] at h
+    | cons c cs =>
+      rw [hf] at h
+      simp only [List.map_cons, List.head?_cons, Pipeline.Pipeline.call] at h
+      have hfold := Viv.Props.C14.foldlM_id_list ((regMods cfg p).map fun m => contribFn m rows) idx [srcItem p t rows idx]
+      erw [Viv.Props.C14.id_bind, hfold] at h
+      have hsrc' := lookupSeries_pointwise p t rows idx src hy hsrc
+      have hitems : ([srcItem p t rows idx] ++ ((regMods cfg p).map fun m => contribFn m rows).map (· idx)) =
+          ((srcValue p t rows) :: (regMods cfg p).map fun m => modW m rows).map (Viv.Props.C14.ser idx) := by
+        rw [srcItem_ok p t rows idx src hsrc, hsrc']
+        simp [Viv.Props.C14.ser, contribFn, List.map_map, Function.comp_def]
+      have hun := Viv.Props.C14.union_series idx (srcValue p t rows) ((regMods cfg p).map fun m => modW m rows)
+      simp only [pure_bind, unionPost] at h
+      erw [hitems, hun] at h
+      simp only [Viv.Props.C14.ser] at h
+      cases h
+      apply List.map_congr_left
+      intro l _
+      simp [List.map_map, Function.comp_def]
+
+
+/-- **the probability used for simulant `l` = post(modifiers in registration order(source(`l`'s own table row)))**,
+pointwise: whoever else is requested, whatever the order of the request -/
+theorem mort_value_pointwise (cfg : Config) (p : PipeSpec) (t : Lookup.Table) (rows : List Row) (idx : List Nat)
+    (ser : Pipeline.Series) (ht : mkTable p = .ok t) (h : mortValue cfg p t rows idx = .ok ser) :
+    ser = idx.map fun l => (l, ownValue cfg p t rows l) := by
+  have hy := mkTable_yearAt p t ht
+  unfold ownValue
+  cases hu : p.union with
+  | true => simpa using mortValue_union cfg p t rows idx ser hy hu h
+  | false => simpa using mortValue_replace cfg p t rows idx ser hy hu h
+
+/-- the request's order and composition do not matter: a simulant requested in two accepted calls on the same table
+and the same state table receives the same value in both -/
+theorem mort_value_independent_of_request (cfg : Config) (p : PipeSpec) (t : Lookup.Table) (rows : List Row)
+    (idx idx' : List Nat) (ser ser' : Pipeline.Series) (ht : mkTable p = .ok t)
+    (h : mortValue cfg p t rows idx = .ok ser) (h' : mortValue cfg p t rows idx' = .ok ser')
+    (l : Nat) (hl : l ∈ idx) (hl' : l ∈ idx') : ∃ v, (l, v) ∈ ser ∧ (l, v) ∈ ser' := by
+  refine ⟨ownValue cfg p t rows l, ?_, ?_⟩
+  · rw [mort_value_pointwise cfg p t rows idx ser ht h]; exact List.mem_map.mpr ⟨l, hl, rfl⟩
+  · rw [mort_value_pointwise cfg p t rows idx' ser' ht h']; exact List.mem_map.mpr ⟨l, hl', rfl⟩
+
+/-- **the source is the simulant's OWN row** (C15 `interp_eq_spec`): on a well-formed interpolated table the cells
+behind `srcValue` are those of a data row whose key cells are the simulant's own sex / state names and whose bin
+covers its own `age` (nearest edge bin outside the covered range) – and no other row does -/
+theorem source_is_own_row (p : PipeSpec) (t : Lookup.Table) (rows : List Row) (l : Nat) (hnp : t.np ≠ 0)
+    (hwf : Viv.Props.C15.WF (Lookup.groupRows t.rows (reqOf p rows l).keys) t.np)
+    (hx : (reqOf p rows l).xs.length = t.np) :
+    ∃ row ∈ t.rows, row.keys = (reqOf p rows l).keys ∧ ownCells t (reqOf p rows l) = some row.vals ∧
+      (∀ q, q < t.np → Viv.Props.C15.Covers (Lookup.groupRows t.rows (reqOf p rows l).keys) row q ((reqOf p rows l).xs.getD q 0)) ∧
+      (∀ row' ∈ t.rows, row'.keys = (reqOf p rows l).keys →
+        (∀ q, q < t.np → Viv.Props.C15.Covers (Lookup.groupRows t.rows (reqOf p rows l).keys) row' q ((reqOf p rows l).xs.getD q 0)) →
+        row' = row) := by
+  obtain ⟨row, h1, h2, h3, h4⟩ := Viv.Props.C15.interp_eq_spec _ _ hwf (reqOf p rows l).xs hx
+  have hm := List.mem_filter.mp h2
+  refine ⟨row, hm.1, by simpa using hm.2, ?_, h3, ?_⟩
+  · simp [ownCells, hnp, Lookup.interpOne, h1]
+  · intro row' hr' hk' hcov
+    exact h4 row' (List.mem_filter.mpr ⟨hr', by simp [hk']⟩) hcov
+
+/-- … and for a categorical table: the one data row whose key cells are the simulant's own -/
+theorem source_is_own_row_categorical (p : PipeSpec) (t : Lookup.Table) (rows : List Row) (l : Nat) (hnp : t.np = 0)
+    (row : Lookup.Row) (hone : Lookup.groupRows t.rows (reqOf p rows l).keys = [row]) :
+    row ∈ t.rows ∧ row.keys = (reqOf p rows l).keys ∧ ownCells t (reqOf p rows l) = some row.vals := by
+  have hm : row ∈ Lookup.groupRows t.rows (reqOf p rows l).keys := by rw [hone]; exact List.mem_singleton.mpr rfl
+  have hm' := List.mem_filter.mp hm
+  exact ⟨hm'.1, by simpa using hm'.2, by simp [ownCells, hnp, hone]⟩
+
+/-- the key cells of a request are the simulant's own sex and state names, in the table's key-column order, and its
+parameter value is its own age -/
+theorem reqOf_own (p : PipeSpec) (rows : List Row) (l : Nat) (r : Row) (hr : rowOf rows l = some r) :
+    (reqOf p rows l).keys = p.keys.map (fun k => if k = 0 then sexName r.sex else stateName r.st) ∧
+    (reqOf p rows l).xs = (if p.edges.isEmpty then [] else [(r.age : Int)]) := by
+  unfold reqOf; rw [hr]; exact ⟨rfl, rfl⟩
+
+/-- with labels `0 … n-1` in table order the row read for label `l` is row `l` -/
+theorem rowOf_lab (s : State) (hl : Lab s) (l : Nat) (r : Row) (hr : s.rows[l]? = some r) : rowOf s.rows l = some r := by
+  unfold rowOf
+  have hlen := lt_of_getElem? hr
+  rw [List.find?_eq_some_iff_getElem]
+  refine ⟨by simp [hl l r hr], l, hlen, ?_, ?_⟩
+  · rw [List.getElem?_eq_getElem hlen] at hr; exact Option.some.inj hr
+  · intro j hj
+    have hj' : j < s.rows.length := by omega
+    have := hl j s.rows[j] (by simp [hj'])
+    simp [this]; omega
+
+
+/-- **the mortality filter uses the pipeline's value, and only tracked simulants are asked.** With a pipeline
+configured, a successful `WMort.act` on an event with at least one tracked simulant: the request handed to the
+pipeline is exactly the tracked simulants of the event index (untracked simulants are not asked), the value logged
+for each is `ownValue` – post(modifiers in registration order(source(own row))) – and the thresholds
+`filter_for_probability` compares the common draws with are exactly those values (`probNat`, denominator `PDEN`) -/
+theorem mort_uses_pipeline_value (B : Blk) (cfg : Config) (evIdx : List Nat) (evTime : Int) (s s' : State)
+    (p : PipeSpec) (t : Lookup.Table) (hp : cfg.pipe = some p) (ht : mkTable p = .ok t)
+    (hne : (s.rows.filter (live evIdx)).isEmpty = false) (h : mort B cfg evIdx evTime s = .ok s') :
+    s'.pvals = (s.rows.filter (live evIdx)).map (fun r => (r.label, ownValue cfg p t s.rows r.label)) ∧
+    (∀ e ∈ s'.pvals, ∃ r ∈ s.rows, r.label = e.1 ∧ r.tracked = true ∧ evIdx.contains r.label = true) ∧
+    ∃ dead, Stream.filterStream (RandomBlock.memoBlk (B (seedStr cfg "wmort" s.clock "None") (blockSize cfg)))
+        (blockSize cfg) (posOf s.imap) (seedStr cfg "wmort" s.clock "None") PDEN
+        ((s.rows.filter (live evIdx)).map (·.label))
+        (.list ((s.rows.filter (live evIdx)).map fun r => probNat (ownValue cfg p t s.rows r.label))) = .ok dead ∧
+      s'.rows = s.rows.map fun r =>
+        if live evIdx r && dead.contains r.label then { r with tracked := false, exit := some evTime } else r := by
+  unfold mort at h
+  simp only [hne, Bool.false_eq_true, if_false] at h
+  unfold mortProbs at h
+  simp only [hp, ht] at h
+  split at h
+  · cases h
+  · rename_i scale ps log hm
+    split at hm
+    · cases hm
+    · rename_i ser hser
+      simp only [Except.ok.injEq, Prod.mk.injEq] at hm
+      obtain ⟨rfl, rfl, rfl⟩ := hm
+      have hpw := mort_value_pointwise cfg p t s.rows _ ser ht hser
+      split at h
+      · cases h
+      · rename_i dead hdead
+        cases h
+        have hlog : ser = (s.rows.filter (live evIdx)).map (fun r => (r.label, ownValue cfg p t s.rows r.label)) := by
+          rw [hpw, List.map_map]; rfl
+        refine ⟨hlog, ?_, dead, ?_, rfl⟩
+        · intro e he
+          rw [hlog] at he
+          obtain ⟨r, hr, rfl⟩ := List.mem_map.mp he
+          have := List.mem_filter.mp hr
+          simp only [live, Bool.and_eq_true] at this
+          exact ⟨r, this.1, rfl, this.2.1, this.2.2⟩
+        · rw [← hdead, hlog, List.map_map]
+          rfl
+
+/-- the comparison the filter makes IS `draw / 2^53 < value`: for a value `a / PDEN` (every value of a valid
+configuration is one) the threshold is `a · 2^53` over the common denominator `PDEN · 2^53` -/
+theorem probNat_exact (a : Nat) : probNat ((a : Rat) / (PDEN : Nat)) = a * 2 ^ 53 := by
+  unfold probNat
+  have hP : ((PDEN : Nat) : Rat) ≠ 0 := by
+    unfold PDEN; decide
+  have h1 : (a : Rat) / (PDEN : Nat) * ((PDEN * 2 ^ 53 : Nat) : Rat) = (((a * 2 ^ 53 : Nat) : Int) : Rat) := by
+    rw [Rat.natCast_mul, Rat.div_def, Rat.mul_assoc, ← Rat.mul_assoc (((PDEN : Nat) : Rat)⁻¹), Rat.inv_mul_cancel _ hP, Rat.one_mul]
+    rw [Rat.intCast_natCast, Rat.natCast_mul]
+  rw [h1, Rat.floor_intCast]
+  exact Int.toNat_natCast _
+
+theorem keep_iff (d a : Nat) :
+    Stream.keep (d * PDEN) (probNat ((a : Rat) / (PDEN : Nat))) = true ↔ d * PDEN < a * 2 ^ 53 := by
+  rw [probNat_exact]; simp [Stream.keep]
+
+/-! ### stratified results over a whole run -/
+
+/-- an event as the results context sees it (C16): phase, time, the prepared population with the mappers' outputs,
+the filters' / aggregators' / `to_observe` outputs per observation -/
+abbrev REvent := String × Int × List Results.RawRow × List Results.ObsInput
+
+/-- the event the results manager's listener hands to `gatherEvent` when it is called in state `s` -/
+def gatherEv (cfg : Config) (ph : Nat) (evIdx : List Nat) (evTime : Int) (s : State) : REvent :=
+  (PHASES.getD ph "", evTime, rawRows cfg evIdx s.rows, obsInputs cfg evTime s.rows)
+
+/-- the results events of the listener calls of one event, in call order -/
+def traceListeners (B : Blk) (cfg : Config) (ph : Nat) (evIdx : List Nat) (evTime : Int) :
+    List Ev.Reg → State → List REvent
+  | [], _ => []
+  | r :: rs, s =>
+    match act B cfg ph evIdx evTime r.2 s with
+    | .ok s' => (if r.2 = 3 then [gatherEv cfg ph evIdx evTime s] else []) ++ traceListeners B cfg ph evIdx evTime rs s'
+    | .error _ => []
+
+def tracePhases (B : Blk) (cfg : Config) : List Nat → State → List REvent
+  | [], _ => []
+  | ph :: phs, s =>
+    match emit B cfg ph s with
+    | .ok s' => traceListeners B cfg ph (s.rows.map (·.label)) (s.clock + cfg.step)
+                  (Ev.emitOrder Gen.nBuckets (regs cfg ph)) s ++ tracePhases B cfg phs s'
+    | .error _ => []
+
+/-- the results events of `n` steps from `s` (of the steps that complete) -/
+def traceIter (B : Blk) (cfg : Config) : Nat → State → List REvent
+  | 0, _ => []
+  | n + 1, s =>
+    match stepWhole B cfg s with
+    | .ok s' => tracePhases B cfg [0, 1, 2, 3] s ++ traceIter B cfg n s'
+    | .error _ => []
+
+theorem runSim_append (c : Results.Ctx) (a b : List REvent) :
+    Results.runSim c (a ++ b) = (Results.runSim c a).bind fun c' => Results.runSim c' b := by
+  induction a generalizing c with
+  | nil => rfl
+  | cons e a ih =>
+    obtain ⟨ph, t, rows, inputs⟩ := e
+    simp only [List.cons_append, Results.runSim]
+    cases Results.gatherEvent c ph t rows inputs with
+    | error e => rfl
+    | ok c1 => exact ih c1
+
+theorem births_res (B : Blk) (cfg : Config) (ph : Nat) (s s' : State) (h : births B cfg ph s = .ok s') :
+    s'.res = s.res := by
+  unfold births at h
+  simp only at h
+  split at h
+  · split at h
+    · exact (create_spec B cfg _ _ s s' h).2.1
+    · cases h; rfl
+  · cases h; rfl
+
+/-- **what a listener call does to the results**: the results manager's listener replaces them by
+`gatherEvent` of the event as it is at that moment; no other listener touches them -/
+theorem act_results (B : Blk) (cfg : Config) (ph : Nat) (evIdx : List Nat) (evTime : Int) (who : Nat) (s s' : State)
+    (h : act B cfg ph evIdx evTime who s = .ok s') :
+    Results.runSim s.res (if who = 3 then [gatherEv cfg ph evIdx evTime s] else []) = .ok s'.res := by
+  unfold act at h
+  split at h
+  · rename_i hw
+    simp only [hw, show ¬ (0 = 3) by decide, if_false, Results.runSim]
+    rw [births_res B cfg ph s s' h]
+  · split at h
+    · rename_i _ hw
+      simp only [hw, show ¬ (1 = 3) by decide, if_false, Results.runSim]
+      rw [(mort_rel B cfg evIdx evTime s s' h).2.2.2]
+    · split at h
+      · rename_i _ _ hw
+        simp only [hw, if_true, Results.runSim, gatherEv]
+        unfold observe at h
+        split at h
+        · rename_i c hc
+          cases h
+          rw [hc]; rfl
+        · cases h
+      · rename_i _ _ hw
+        simp only [hw, if_false, Results.runSim]
+        rw [(disease_rel B cfg evTime evIdx s s' h).2.2.2.1]
+
+theorem runListeners_results (B : Blk) (cfg : Config) (ph : Nat) (evIdx : List Nat) (t : Int) :
+    ∀ (rs : List Ev.Reg) (s s' : State), runListeners B cfg ph evIdx t rs s = .ok s' →
+      Results.runSim s.res (traceListeners B cfg ph evIdx t rs s) = .ok s'.res := by
+  intro rs
+  induction rs with
+  | nil => intro s s' h; cases h; rfl
+  | cons r rs ih =>
+    intro s s' h
+    unfold runListeners at h
+    split at h
+    · rename_i s1 h1
+      unfold traceListeners
+      rw [h1]
+      simp only
+      rw [runSim_append, act_results B cfg ph evIdx t r.2 s s1 h1]
+      exact ih s1 s' h
+    · cases h
+
+
+theorem runPhases_results (B : Blk) (cfg : Config) :
+    ∀ (phs : List Nat) (s s' : State), runPhases B cfg phs s = .ok s' →
+      Results.runSim s.res (tracePhases B cfg phs s) = .ok s'.res := by
+  intro phs
+  induction phs with
+  | nil => intro s s' h; cases h; rfl
+  | cons ph phs ih =>
+    intro s s' h
+    unfold runPhases at h
+    split at h
+    · rename_i s1 h1
+      unfold tracePhases
+      rw [h1]
+      simp only
+      have h1' := h1
+      unfold emit at h1'
+      rw [runSim_append, runListeners_results B cfg ph _ _ _ s s1 h1']
+      exact ih s1 s' h
+    · cases h
+
+theorem step_results (B : Blk) (cfg : Config) (s s' : State) (h : stepWhole B cfg s = .ok s') :
+    Results.runSim s.res (tracePhases B cfg [0, 1, 2, 3] s) = .ok s'.res := by
+  unfold stepWhole at h
+  split at h
+  · rename_i s1 h1
+    cases h
+    exact runPhases_results B cfg _ s s1 h1
+  · cases h
+
+/-- **the results after `n` steps are the C16 context run over the events of those steps**: `_raw_results` after
+`n` steps = `runSim` of the results before them over the `gatherEvent` calls the steps made, in order -/
+theorem iter_results (B : Blk) (cfg : Config) :
+    ∀ (n : Nat) (s s' : State), iterWhole B cfg n s = .ok s' →
+      Results.runSim s.res (traceIter B cfg n s) = .ok s'.res := by
+  intro n
+  induction n with
+  | zero => intro s s' h; cases h; rfl
+  | succ n ih =>
+    intro s s' h
+    unfold iterWhole at h
+    split at h
+    · rename_i s1 h1
+      unfold traceIter
+      rw [h1]
+      simp only
+      rw [runSim_append, step_results B cfg s s1 h1]
+      exact ih s1 s' h
+    · cases h
+
+theorem traceIter_succ (B : Blk) (cfg : Config) (n : Nat) (s : State) :
+    traceIter B cfg (n + 1) s = match stepWhole B cfg s with
+      | .ok s' => tracePhases B cfg [0, 1, 2, 3] s ++ traceIter B cfg n s'
+      | .error _ => [] := rfl
+
+/-- the events of `n + m` steps are those of the first `n` followed by those of the next `m` -/
+theorem traceIter_add (B : Blk) (cfg : Config) (m : Nat) :
+    ∀ (n : Nat) (s s1 : State), iterWhole B cfg n s = .ok s1 →
+      traceIter B cfg (n + m) s = traceIter B cfg n s ++ traceIter B cfg m s1 := by
+  intro n
+  induction n with
+  | zero => intro s s1 h; cases h; simp [traceIter]
+  | succ n ih =>
+    intro s s1 h
+    unfold iterWhole at h
+    split at h
+    · rename_i s' h1
+      rw [Nat.succ_add]
+      show traceIter B cfg (n + m + 1) s = traceIter B cfg (n + 1) s ++ _
+      rw [traceIter_succ, traceIter_succ, h1]
+      simp only
+      rw [ih s' s1 h, List.append_assoc]
+    · cases h
+
+/-- **results are additive / resume**: running `n + m` steps gives the results of running `n` steps and then `m`
+steps from the state reached – the complete state, results included (`resume_at_any_boundary`) – and the results after
+the `n + m` steps are the context after the first `n` run over the events of the last `m` -/
+theorem results_resume (B : Blk) (cfg : Config) (n m : Nat) (s s1 s2 : State)
+    (h1 : iterWhole B cfg n s = .ok s1) (h2 : iterWhole B cfg m s1 = .ok s2) :
+    iterWhole B cfg (n + m) s = .ok s2 ∧
+    traceIter B cfg (n + m) s = traceIter B cfg n s ++ traceIter B cfg m s1 ∧
+    Results.runSim s.res (traceIter B cfg n s) = .ok s1.res ∧
+    Results.runSim s1.res (traceIter B cfg m s1) = .ok s2.res ∧
+    Results.runSim s.res (traceIter B cfg (n + m) s) = .ok s2.res := by
+  have h12 : iterWhole B cfg (n + m) s = .ok s2 := by rw [resume_at_any_boundary B cfg n m s s1 h1]; exact h2
+  exact ⟨h12, traceIter_add B cfg m n s s1 h1, iter_results B cfg n s s1 h1, iter_results B cfg m s1 s2 h2,
+    iter_results B cfg (n + m) s s2 h12⟩
+
+
+theorem foldlM_inv {α β ε : Type} (f : β → α → Except ε β) (I : β → Prop)
+    (hI : ∀ b a b', I b → f b a = .ok b' → I b') :
+    ∀ (l : List α) (b b' : β), I b → l.foldlM f b = .ok b' → I b' := by
+  intro l
+  induction l with
+  | nil => intro b b' hb h; simp only [List.foldlM_nil, pure, Except.pure] at h; cases h; exact hb
+  | cons a l ih =>
+    intro b b' hb h
+    rw [List.foldlM_cons] at h
+    cases hf : f b a with
+    | error e => rw [hf] at h; simp [bind, Except.bind] at h
+    | ok b1 =>
+      rw [hf] at h
+      exact ih b1 b' (hI b a b1 hb hf) h
+
+/-- what setup leaves in the results context: distinct categories per stratification, distinct observation names,
+adding observations only -/
+theorem preRes_spec (cfg : Config) (c0 : Results.Ctx) (h : preRes cfg = .ok c0) :
+    (∀ st ∈ c0.strats, st.cats.Nodup) ∧ (c0.obs.map (·.name)).Nodup ∧ (∀ o ∈ c0.obs, o.kind = .adding) := by
+  unfold preRes at h
+  split at h
+  · cases h
+  · rename_i strats hs
+    have hcats : ∀ st ∈ strats, st.cats.Nodup := by
+      unfold preStrats at hs
+      exact foldlM_inv _ (fun ss => ∀ st ∈ ss, st.cats.Nodup)
+        (fun ss sp ss' hss hreg => Viv.Props.C16.registered_cats_nodup [] ss ss' _ _ _ _ hss hreg) _ [] strats
+        (fun _ hst => by cases hst) hs
+    have := foldlM_inv _ (fun (c : Results.Ctx) => c.strats = strats ∧ (c.obs.map (·.name)).Nodup ∧ ∀ o ∈ c.obs, o.kind = .adding)
+      (fun c (o : ObsSpec) c' hc hreg => by
+        obtain ⟨h1, h2, h3⟩ := hc
+        have hnd := Viv.Props.C16.registerObservation_names_nodup c c' _ _ _ _ _ true h2 hreg
+        unfold Results.registerObservation at hreg
+        split at hreg
+        · cases hreg
+        split at hreg
+        · cases hreg
+        · cases hreg
+          refine ⟨h1, hnd, ?_⟩
+          intro o' ho'
+          rcases List.mem_append.mp ho' with ho' | ho'
+          · exact h3 o' ho'
+          · simp at ho'; subst ho'; rfl)
+      _ _ c0 ⟨rfl, by simp, fun _ ho => by cases ho⟩ h
+    exact ⟨by rw [this.1]; exact hcats, this.2.1, this.2.2⟩
+
+/-- the results context a run starts with -/
+theorem initPop_res (B : Blk) (cfg : Config) (c : Results.Ctx) (hc : initRes cfg = .ok c) (s0 : State)
+    (h0 : initPopB B cfg = .ok s0) : s0.res = c := by
+  unfold initPopB at h0
+  split at h0
+  · rename_i s1 h1
+    cases h0
+    show s1.res = c
+    rw [(create_spec B cfg _ _ _ s1 h1).2.1]
+    simp [initState, hc]
+  · cases h0
+
+
+/-- **the reported results of a whole run in closed form** (C16 `simulation_result` composed with the engine): after
+the initial creation and `n` steps, every observation's table has one row per combination of its non-excluded
+categories and the value of stratum `k` is the sum, over the `gatherEvent` calls of the `n` steps in order, of what
+that event contributes to `k` – results after `n` steps = Σ over the events of the steps -/
+theorem run_results_closed_form (B : Blk) (cfg : Config) (c0 c : Results.Ctx) (hpre : preRes cfg = .ok c0)
+    (hpost : Results.postSetup c0 = .ok c) (n : Nat) (s0 s : State) (h0 : initPopB B cfg = .ok s0)
+    (h : iterWhole B cfg n s0 = .ok s) (o : Results.Obs) (ho : o ∈ c0.obs) :
+    Results.getAssoc o.name s.res.adding =
+      some ((Results.product (Results.levelsOf c0.strats o.strats)).map fun k =>
+        (k, (((traceIter B cfg n s0).map (Viv.Props.C16.eventFor c0.strats o)).map (Viv.Props.C16.eventTerm k)).sum)) := by
+  obtain ⟨_, hnd, hadd⟩ := preRes_spec cfg c0 hpre
+  have hc : initRes cfg = .ok c := by unfold initRes; rw [hpre]; exact hpost
+  have hrun := iter_results B cfg n s0 s h
+  rw [initPop_res B cfg c hc s0 h0] at hrun
+  exact Viv.Props.C16.simulation_result c0 c s.res _ hpost hrun hnd o ho (hadd o ho)
+
+/-- what one event adds to the total of an observation: the aggregate over its eligible simulants, when observed -/
+def eventTotal (ss : List Results.Strat) (o : Results.Obs) (ev : REvent) : Int :=
+  if (Viv.Props.C16.eventFor ss o ev).1 then Results.eligibleSum (Viv.Props.C16.eventFor ss o ev).2 else 0
+
+theorem eventFor_valid (ss : List Results.Strat) (o : Results.Obs) (ev : REvent) :
+    ∀ r ∈ (Viv.Props.C16.eventFor ss o ev).2, r.eligible = true → r.key ∈ Results.product (Results.levelsOf ss o.strats) := by
+  obtain ⟨ph, t, rows, inputs⟩ := ev
+  unfold Viv.Props.C16.eventFor
+  simp only
+  split
+  · split
+    · rename_i i _
+      simp only
+      unfold Viv.Props.C16.mappedOf
+      cases hs : Results.stratifyAll ss rows with
+      | ok mapped => exact Viv.Props.C16.mkRows_valid ss rows mapped hs o.strats i.passes i.vals
+      | error e =>
+        intro r hr
+        simp [Results.mkRows] at hr
+    · intro r hr; cases hr
+  · intro r hr; cases hr
+
+/-- C16 `simulation_result` + `total_conservation` for any sequence of events of the context -/
+theorem ctx_results_conservation (c0 c c' : Results.Ctx) (evs : List REvent)
+    (hcats : ∀ st ∈ c0.strats, st.cats.Nodup) (hnd : (c0.obs.map (·.name)).Nodup)
+    (hpost : Results.postSetup c0 = .ok c) (hrun : Results.runSim c evs = .ok c') (o : Results.Obs) (ho : o ∈ c0.obs)
+    (hk : o.kind = .adding) :
+    ∃ tab, Results.getAssoc o.name c'.adding = some tab ∧
+      (tab.map (·.2)).sum = (evs.map (eventTotal c0.strats o)).sum := by
+  refine ⟨_, Viv.Props.C16.simulation_result c0 c c' evs hpost hrun hnd o ho hk, ?_⟩
+  have hl := Viv.Props.C16.levelsOf_nodup c0.strats hcats o.strats
+  have := Viv.Props.C16.total_conservation _ hl (evs.map (Viv.Props.C16.eventFor c0.strats o))
+    (by
+      intro e he
+      obtain ⟨ev, _, rfl⟩ := List.mem_map.mp he
+      exact eventFor_valid c0.strats o ev)
+  rw [Viv.Props.C16.result_is_sum_of_increments] at this
+  rw [this, List.map_map]
+  rfl
+
+/-- **conservation over a whole run** (C16 `total_conservation`): after `n` steps the values an observation reports
+over all its strata add up to the aggregate over the eligible simulants of all its observed events -/
+theorem run_results_conservation (B : Blk) (cfg : Config) (c0 c : Results.Ctx) (hpre : preRes cfg = .ok c0)
+    (hpost : Results.postSetup c0 = .ok c) (n : Nat) (s0 s : State) (h0 : initPopB B cfg = .ok s0)
+    (h : iterWhole B cfg n s0 = .ok s) (o : Results.Obs) (ho : o ∈ c0.obs) :
+    ∃ tab, Results.getAssoc o.name s.res.adding = some tab ∧
+      (tab.map (·.2)).sum = ((traceIter B cfg n s0).map (eventTotal c0.strats o)).sum := by
+  obtain ⟨hcats, hnd, hadd⟩ := preRes_spec cfg c0 hpre
+  have hc : initRes cfg = .ok c := by unfold initRes; rw [hpre]; exact hpost
+  have hrun := iter_results B cfg n s0 s h
+  rw [initPop_res B cfg c hc s0 h0] at hrun
+  exact ctx_results_conservation c0 c s.res _ hcats hnd hpost hrun o ho (hadd o ho)
+
+/-- **after EVERY observation event of a whole run**: split the events of the `n` steps anywhere, `pre ++ ev :: post`;
+the context after `pre` and the context after `ev` exist, and for every observation the total over its strata grows
+across `ev` by exactly the aggregate over the simulants eligible at that event (0 when the event is not observed) -/
+theorem every_event_conserves (B : Blk) (cfg : Config) (c0 c : Results.Ctx) (hpre : preRes cfg = .ok c0)
+    (hpost : Results.postSetup c0 = .ok c) (n : Nat) (s0 s : State) (h0 : initPopB B cfg = .ok s0)
+    (h : iterWhole B cfg n s0 = .ok s) (pre post : List REvent) (ev : REvent)
+    (hsplit : traceIter B cfg n s0 = pre ++ ev :: post) (o : Results.Obs) (ho : o ∈ c0.obs) :
+    ∃ c1 c2 t1 t2, Results.runSim c pre = .ok c1 ∧ Results.gatherEvent c1 ev.1 ev.2.1 ev.2.2.1 ev.2.2.2 = .ok c2 ∧
+      Results.getAssoc o.name c1.adding = some t1 ∧ Results.getAssoc o.name c2.adding = some t2 ∧
+      (t2.map (·.2)).sum = (t1.map (·.2)).sum + eventTotal c0.strats o ev := by
+  obtain ⟨hcats, hnd, hadd⟩ := preRes_spec cfg c0 hpre
+  have hc : initRes cfg = .ok c := by unfold initRes; rw [hpre]; exact hpost
+  have hrun := iter_results B cfg n s0 s h
+  rw [initPop_res B cfg c hc s0 h0, hsplit, runSim_append] at hrun
+  cases h1 : Results.runSim c pre with
+  | error e => rw [h1] at hrun; cases hrun
+  | ok c1 =>
+    rw [h1] at hrun
+    simp only [Except.bind] at hrun
+    obtain ⟨ph, t, rows, inputs⟩ := ev
+    simp only [Results.runSim] at hrun
+    cases h2 : Results.gatherEvent c1 ph t rows inputs with
+    | error e => rw [h2] at hrun; cases hrun
+    | ok c2 =>
+      have h12 : Results.runSim c (pre ++ [(ph, t, rows, inputs)]) = .ok c2 := by
+        rw [runSim_append, h1]
+        simp only [Except.bind, Results.runSim, h2]
+        rfl
+      obtain ⟨t1, ht1, hs1⟩ := ctx_results_conservation c0 c c1 pre hcats hnd hpost h1 o ho (hadd o ho)
+      obtain ⟨t2, ht2, hs2⟩ := ctx_results_conservation c0 c c2 _ hcats hnd hpost h12 o ho (hadd o ho)
+      refine ⟨c1, c2, t1, t2, rfl, h2, ht1, ht2, ?_⟩
+      rw [hs2, hs1, List.map_append, List.sum_append]
+      simp
+
+
+/-! #### the eligible simulants of an event, in the simulation's own terms -/
+
+/-- the stratified categories of ONE simulant, from its own attributes alone (`[]` when it is not in the event) -/
+def ownMapped (cfg : Config) (ss : List Results.Strat) (evIdx : List Nat) (r : Row) : List (String × Option String) :=
+  if evIdx.contains r.label then
+    (match Results.stratifyRow ss ((regStrats cfg).map fun sp => rawCat sp r) with | .ok m => m | .error _ => [])
+  else []
+
+/-- eligible at an event: in `event.index`, passing the observation's filter, in no excluded category of the
+observation's stratifications – decided by the simulant's own row -/
+def rowEligible (cfg : Config) (ss : List Results.Strat) (names : List String) (f : Nat) (evIdx : List Nat) (r : Row) : Bool :=
+  evIdx.contains r.label && passesFilter f r && (Results.catsFor names (ownMapped cfg ss evIdx r)).all Option.isSome
+
+/-- `stratifyAll` is row by row -/
+theorem stratifyAll_eq (ss : List Results.Strat) :
+    ∀ (rows : List Results.RawRow) (mapped : List (List (String × Option String))),
+      Results.stratifyAll ss rows = .ok mapped →
+      mapped = rows.map fun r => if r.inEvent then
+        (match Results.stratifyRow ss r.raw with | .ok m => m | .error _ => []) else [] := by
+  intro rows
+  induction rows with
+  | nil => intro mapped h; simp [Results.stratifyAll] at h; exact h.symm ▸ rfl
+  | cons r rows ih =>
+    intro mapped h
+    unfold Results.stratifyAll at h
+    cases h2 : Results.stratifyAll ss rows with
+    | error e =>
+      by_cases h0 : r.inEvent = true
+      · cases h1 : Results.stratifyRow ss r.raw <;> simp [h0, h1, h2, bind, Except.bind] at h
+      · simp [h0, h2, bind, Except.bind, pure, Except.pure] at h
+    | ok rest =>
+      have ih' := ih rest h2
+      by_cases h0 : r.inEvent = true
+      · cases h1 : Results.stratifyRow ss r.raw with
+        | error e1 => simp [h0, h1, bind, Except.bind] at h
+        | ok m0 =>
+          simp only [h0, h1, h2, if_true, bind, Except.bind, pure, Except.pure] at h
+          cases h
+          simp [h0, h1, ← ih']
+      · simp only [h0, h2, bind, Except.bind, pure, Except.pure] at h
+        cases h
+        simp [h0, ← ih']
+
+theorem stratifyAll_rawRows (cfg : Config) (ss : List Results.Strat) (evIdx : List Nat)
+    (rows : List Row) (mapped : List (List (String × Option String)))
+    (h : Results.stratifyAll ss (rawRows cfg evIdx rows) = .ok mapped) : mapped = rows.map (ownMapped cfg ss evIdx) := by
+  rw [stratifyAll_eq ss _ mapped h]
+  unfold rawRows
+  rw [List.map_map]
+  rfl
+
+theorem mkRows_map (names : List String) (rows : List Row) (f1 : Row → Results.RawRow)
+    (f2 : Row → List (String × Option String)) (f3 : Row → Bool) (f4 : Row → Int) :
+    Results.mkRows names (rows.map f1) (rows.map f2) (rows.map f3) (rows.map f4) =
+      rows.map fun r => { inEvent := (f1 r).inEvent, passes := f3 r, cats := Results.catsFor names (f2 r), val := f4 r } := by
+  unfold Results.mkRows
+  induction rows with
+  | nil => rfl
+  | cons r rows ih => simp only [List.map_cons, List.zip_cons_cons, ih]
+
+/-- the rows C16's row layer receives for an observation at an event are, simulant by simulant, the simulant's own
+membership of the event, its own filter outcome, its own categories and its own summand -/
+theorem event_rows_own_terms (cfg : Config) (ss : List Results.Strat) (names : List String) (f a : Nat)
+    (evIdx : List Nat) (rows : List Row) (mapped : List (List (String × Option String)))
+    (h : Results.stratifyAll ss (rawRows cfg evIdx rows) = .ok mapped) :
+    Results.eligibleSum (Results.mkRows names (rawRows cfg evIdx rows) mapped (rows.map (passesFilter f)) (rows.map (aggVal a))) =
+      ((rows.filter (rowEligible cfg ss names f evIdx)).map (aggVal a)).sum := by
+  rw [stratifyAll_rawRows cfg ss evIdx rows mapped h]
+  unfold rawRows
+  rw [mkRows_map]
+  unfold Results.eligibleSum
+  rw [List.filter_map, List.map_map]
+  rfl
+
+
+theorem no_one_in_event (cfg : Config) (evIdx : List Nat) (rows : List Row)
+    (h : ((rawRows cfg evIdx rows).filter (·.inEvent)).isEmpty = true) : ∀ r ∈ rows, evIdx.contains r.label = false := by
+  intro r hr
+  have h0 := List.isEmpty_iff.mp h
+  unfold rawRows at h0
+  rw [List.filter_map, List.map_eq_nil_iff, List.filter_eq_nil_iff] at h0
+  simpa using h0 r hr
+
+theorem find?_obsInputs (cfg : Config) (evTime : Int) (rows : List Row) (name : String) :
+    (obsInputs cfg evTime rows).find? (fun i => i.name = name) =
+      ((regObs cfg).find? (fun os => os.name = name)).map fun o =>
+        ({ name := o.name, toObserve := decide (((evTime - cfg.start) / cfg.step) % (o.every : Int) = 0),
+           passes := rows.map (passesFilter o.filter), vals := rows.map (aggVal o.agg), payloads := [] } : Results.ObsInput) := by
+  unfold obsInputs
+  induction regObs cfg with
+  | nil => rfl
+  | cons o os ih =>
+    simp only [List.map_cons, List.find?_cons]
+    by_cases hn : o.name = name
+    · simp [hn]
+    · simp [hn, ih]
+
+/-- **what one observation event adds, in the simulation's own terms.** The results manager's listener is called
+in state `s` during channel `ph` (event index `evIdx`, event time `evTime`); `o` is an observation of that channel,
+`os` its specification. If the mappers' outputs are all categories (otherwise the event raises), the event's
+contribution to the observation's total is – when `to_observe` holds – the sum of the aggregator's summands over the
+rows of the state table that are in the event index, pass the filter and sit in no excluded category; untracked
+simulants count unless the filter drops them. -/
+theorem event_total_own_terms (cfg : Config) (ss : List Results.Strat) (o : Results.Obs) (os : ObsSpec) (ph : Nat)
+    (evIdx : List Nat) (evTime : Int) (s : State) (mapped : List (List (String × Option String)))
+    (hph : PHASES.getD ph "" = o.phase) (hos : (regObs cfg).find? (fun os => os.name = o.name) = some os)
+    (hstrat : Results.stratifyAll ss (rawRows cfg evIdx s.rows) = .ok mapped) :
+    eventTotal ss o (gatherEv cfg ph evIdx evTime s) =
+      if ((evTime - cfg.start) / cfg.step) % (os.every : Int) = 0 then
+        ((s.rows.filter (rowEligible cfg ss o.strats os.filter evIdx)).map (aggVal os.agg)).sum
+      else 0 := by
+  unfold eventTotal Viv.Props.C16.eventFor gatherEv
+  simp only [hph, true_and]
+  cases hE : ((rawRows cfg evIdx s.rows).filter (·.inEvent)).isEmpty with
+  | true =>
+    -- nobody is in the event: nothing is added, and nobody is eligible
+    have hnone : s.rows.filter (rowEligible cfg ss o.strats os.filter evIdx) = [] := by
+      rw [List.filter_eq_nil_iff]
+      intro r hr
+      have hno := no_one_in_event cfg evIdx s.rows hE r hr
+      unfold rowEligible
+      rw [hno]; simp
+    simp [hnone]
+  | false =>
+    simp only [if_true]
+    rw [find?_obsInputs, hos]
+    simp only [Option.map_some, Viv.Props.C16.mappedOf, hstrat]
+    rw [event_rows_own_terms cfg ss o.strats os.filter os.agg evIdx s.rows mapped hstrat]
+    simp
+
+/-- … and for a counting observation (`aggregator = len`) that is the NUMBER of eligible simulants -/
+theorem event_count_own_terms (cfg : Config) (ss : List Results.Strat) (o : Results.Obs) (os : ObsSpec) (ph : Nat)
+    (evIdx : List Nat) (evTime : Int) (s : State) (mapped : List (List (String × Option String)))
+    (hph : PHASES.getD ph "" = o.phase) (hos : (regObs cfg).find? (fun os => os.name = o.name) = some os)
+    (hstrat : Results.stratifyAll ss (rawRows cfg evIdx s.rows) = .ok mapped) (hcount : os.agg = 0) :
+    eventTotal ss o (gatherEv cfg ph evIdx evTime s) =
+      if ((evTime - cfg.start) / cfg.step) % (os.every : Int) = 0 then
+        ((s.rows.filter (rowEligible cfg ss o.strats os.filter evIdx)).length : Int)
+      else 0 := by
+  rw [event_total_own_terms cfg ss o os ph evIdx evTime s mapped hph hos hstrat]
+  split
+  · rw [← Viv.Results.sum_ones]
+    congr 1
+    apply List.map_congr_left
+    intro r _
+    simp [aggVal, hcount]
+  · rfl
+
+
+theorem mem_traceListeners (B : Blk) (cfg : Config) (ph : Nat) (evIdx : List Nat) (t : Int) (ev : REvent) :
+    ∀ (rs : List Ev.Reg) (s : State), Reach B cfg s → s.clock + cfg.step = t →
+      ev ∈ traceListeners B cfg ph evIdx t rs s →
+      ∃ s', Reach B cfg s' ∧ s'.clock = s.clock ∧ ev = gatherEv cfg ph evIdx t s' := by
+  intro rs
+  induction rs with
+  | nil => intro s _ _ h; cases h
+  | cons r rs ih =>
+    intro s hs ht h
+    unfold traceListeners at h
+    split at h
+    · rename_i s1 h1
+      rcases List.mem_append.mp h with h | h
+      · split at h
+        · exact ⟨s, hs, rfl, List.mem_singleton.mp h⟩
+        · cases h
+      · have hr := act_rel B cfg ph evIdx t r.2 s s1 h1
+        obtain ⟨s', h1', h2', h3'⟩ := ih s1 (Reach.act s s1 hs (by rw [ht]; exact hr)) (by rw [hr.clock]; exact ht) h
+        exact ⟨s', h1', h2'.trans hr.clock, h3'⟩
+    · cases h
+
+theorem mem_tracePhases (B : Blk) (cfg : Config) (ev : REvent) :
+    ∀ (phs : List Nat) (s : State), Reach B cfg s → ev ∈ tracePhases B cfg phs s →
+      ∃ ph evIdx s', Reach B cfg s' ∧ s'.clock = s.clock ∧ ev = gatherEv cfg ph evIdx (s'.clock + cfg.step) s' := by
+  intro phs
+  induction phs with
+  | nil => intro s _ h; cases h
+  | cons ph phs ih =>
+    intro s hs h
+    unfold tracePhases at h
+    split at h
+    · rename_i s1 h1
+      rcases List.mem_append.mp h with h | h
+      · obtain ⟨s', h1', h2', h3'⟩ := mem_traceListeners B cfg ph _ _ ev _ s hs rfl h
+        exact ⟨ph, _, s', h1', h2', by rw [h2']; exact h3'⟩
+      · have h1e := h1
+        unfold emit at h1e
+        obtain ⟨hr1, hc1⟩ := runListeners_inv B cfg _ (reach_kept B cfg) ph _ _ _ s s1 hs rfl h1e
+        obtain ⟨ph', evIdx', s', h1', h2', h3'⟩ := ih s1 hr1 h
+        exact ⟨ph', evIdx', s', h1', h2'.trans hc1, h3'⟩
+    · cases h
+
+/-- **every results event of a run is a call of the results manager's listener in a state of the run**: each element
+of the trace is `gatherEv` of some channel and event index at a listener-start state `s'` (`Reach`: it satisfies
+`Good ∧ MapInv`), with the event time `s'.clock + step` -/
+theorem mem_traceIter (B : Blk) (cfg : Config) (ev : REvent) :
+    ∀ (n : Nat) (s : State), Reach B cfg s → ev ∈ traceIter B cfg n s →
+      ∃ ph evIdx s', Reach B cfg s' ∧ ev = gatherEv cfg ph evIdx (s'.clock + cfg.step) s' := by
+  intro n
+  induction n with
+  | zero => intro s _ h; cases h
+  | succ n ih =>
+    intro s hs h
+    rw [traceIter_succ] at h
+    split at h
+    · rename_i s1 h1
+      rcases List.mem_append.mp h with h | h
+      · obtain ⟨ph, evIdx, s', h1', _, h3'⟩ := mem_tracePhases B cfg ev _ s hs h
+        exact ⟨ph, evIdx, s', h1', h3'⟩
+      · exact ih s1 (step_inv_rows B cfg _ (reach_kept B cfg) (fun x c hx => Reach.tick x c hx) s s1 hs h1) h
+    · cases h
+
 /-! ### the hypotheses are inhabited (a kernel-cheap toy block; the real block is exercised by the driver) -/
 
 def cfgEx : Config :=
@@ -1490,5 +2424,45 @@ example : (initPopB toyB cfgEx).bind (runWholeB toyB cfgEx 8) = (initPopB toyB c
 
 /-- a refused run: `entrance` as the only key column and two simulants created together -/
 example : initPopB toyB { cfgEx with keyCols := [0] } = .error .randomness := by decide
+
+/-! #### the opt-in parts: age column, lookup table + value pipeline (three non-commuting modifiers, two of them
+registered), observer with two stratifications (one with an excluded category) and two observations -/
+
+def pipeEx : PipeSpec :=
+  { union := false, den := 16, keys := [0, 1], edges := [0, 2, 4],
+    rows := [[0, 0, 0, 16], [0, 0, 1, 8], [0, 1, 0, 4], [0, 1, 1, 2], [1, 0, 0, 16], [1, 0, 1, 12], [1, 1, 0, 6], [1, 1, 1, 3]],
+    mods := [⟨0, 2, [1, 2]⟩, ⟨1, 16, [1, 0]⟩, ⟨2, 4, [1, 3]⟩] }
+
+def cfgX : Config :=
+  { cfgEx with
+    order := [4, 0, 3, 1, 5, 2]
+    age := some 2
+    pipe := some pipeEx
+    strats := [⟨"sex", 0, ["m", "f"], [], []⟩, ⟨"alive", 3, ["yes", "no"], ["no"], []⟩]
+    obs := [⟨"n", 3, 0, 0, 1, ["sex", "alive"], []⟩, ⟨"e", 1, 1, 1, 2, ["sex"], []⟩] }
+
+set_option maxRecDepth 100000 in
+example : cfgX.valid = true := by decide +kernel
+
+set_option maxRecDepth 100000 in
+/-- setup succeeds: the hypotheses `preRes cfg = .ok c0`, `postSetup c0 = .ok c`, `mkTable p = .ok t` are inhabited -/
+example : ((preRes cfgX).bind Results.postSetup).toOption.isSome = true ∧ (mkTable pipeEx).toOption.isSome = true := by
+  decide +kernel
+
+set_option maxRecDepth 100000 in
+/-- two steps: simulant 0 leaves in step 1, the newborn 2 in step 2 (pipeline value 1 = table 16/16 · 2/2 … );
+the last pipeline call asked the tracked simulants 1 and 2 only; `n` counted the tracked females (the category
+`no` is excluded), `e` (every 2nd step, `time_step`, before the mortality listener) summed the entrance times -/
+example : ((initPopB toyB cfgX).bind (iterWhole toyB cfgX 2)).toOption.map
+      (fun s => (s.clock, s.rows.map (fun r => (r.label, r.tracked, r.age)))) =
+    some (2, [(0, false, 1), (1, true, 3), (2, false, 0)]) ∧
+    ((initPopB toyB cfgX).bind (iterWhole toyB cfgX 2)).toOption.map (fun s => s.pvals) =
+      some [(1, (3 : Rat) / 16), (2, 1)] ∧
+    ((initPopB toyB cfgX).bind (iterWhole toyB cfgX 2)).toOption.map (fun s => s.res.adding) =
+      some [("n", [(["yes", "m"], 0), (["yes", "f"], 3)]), ("e", [(["m"], 0), (["f"], -1)])] := by decide +kernel
+
+set_option maxRecDepth 100000 in
+/-- the results manager's listener is called once per channel and step: eight events in two steps -/
+example : ((initPopB toyB cfgX).toOption.map fun s0 => (traceIter toyB cfgX 2 s0).length) = some 8 := by decide +kernel
 
 end Viv.Props.Whole
